@@ -30,8 +30,9 @@ Definition same_b (c : c15case) : bool :=
            (map tc_out (c_types (cb c))).
 
 (* a copy of / strictly monotone function of the target is returned, unless it fails thresh_nan /
-   thresh_mode, or n_best returned features of its type are at least as associated with the
-   target (exact tie at the top), or it is too associated with such a returned feature *)
+   thresh_mode, or n_best returned features of its type are EXACTLY as associated with the target
+   (tie at the top: nothing may be strictly better than a perfect predictor), or it is too
+   associated with a returned feature that is at least as associated *)
 Definition must_ok (tc : tcase) (i : nat) : bool :=
   let t := tc_in tc in
   let out := tc_out tc in
@@ -45,7 +46,8 @@ Definition must_ok (tc : tcase) (i : nat) : bool :=
       || match nth j (f_spec f) None with
          | Some s =>
              let better := filter (fun g => match spec_at t g j with Some sg => s <=? sg | None => false end) out in
-             Nat.leb (t_nbest t) (List.length better)
+             (Nat.leb (t_nbest t) (List.length better)
+              && forallb (fun g => match spec_at t g j with Some sg => sg =? s | None => false end) better)
              || existsb (fun fl => existsb (fun g => fl_thresh fl <=? fst (assoc_at fl i g)) better) (t_filters t)
          | None => false
          end
